@@ -454,7 +454,9 @@ def densify(coords: CoordList, resolution: float) -> CoordList:
     d2 = resolution**2
 
     def short_enough(p1, p2):
-        return ((p1[0] - p2[0]) ** 2 + (p1[1] - p2[1]) ** 2) < d2
+        # in floats: squares of numpy integer coordinates overflow
+        dx, dy = float(p1[0]) - float(p2[0]), float(p1[1]) - float(p2[1])
+        return (dx * dx + dy * dy) < d2
 
     new_coords = [coords[0]]
     for p1, p2 in zip(coords[:-1], coords[1:]):
